@@ -37,6 +37,9 @@ type Gen struct {
 	axiomNames []string
 	axiomDecls []string
 	specErrors []string
+	funcTypeImpl    map[string][]*ssa.Function // "type:T" -> functions converted to T
+	lostFuncTypes   []*Contract
+	unboundFuncType []string
 }
 
 type Obligation struct {
